@@ -21,7 +21,11 @@ Enders == {"close", "closenow", "closeAndClosenow", "closenowThenClose", "closeT
            "protoerr+closenow", "transportfail+closenow", "transportfail+close",
            \* a Close whose handshake is under way (the peer does not answer), a second Close waiting for it, and then a call whose
            \* lock wait expires and closes the connection asynchronously: counted when the SECOND Close has returned
-           "closeTwiceThenLockExpire"}
+           "closeTwiceThenLockExpire",
+           \* the CloseRead goroutine is blocked in a write -- answering a ping, or closing the connection with 1008 because a data
+           \* message arrived -- (the peer has stopped reading, and the transport is slow to let go of pending I/O when it is
+           \* closed); the context given to CloseRead is cancelled; then CloseNow
+           "stalledPong+cancelCloseRead+closenow", "stalledPolicyClose+cancelCloseRead+closenow"}
 
 S0 == [reader |-> "free", writer |-> "free", open |-> TRUE, gor |-> {"tl"}, ended |-> FALSE]
 
@@ -32,6 +36,7 @@ Enabled(s, op) ==
        [] op \in {"ping", "pingExpire"} -> s.open /\ s.reader = "closeread"      \* somebody has to read the pong
        [] op = "lockExpire" -> s.open /\ s.writer = "abandoned"                  \* a Write queues behind the abandoned Writer
        [] op = "closeTwiceThenLockExpire" -> s.open /\ s.writer = "abandoned"
+       [] op \in {"stalledPong+cancelCloseRead+closenow", "stalledPolicyClose+cancelCloseRead+closenow"} -> s.open /\ s.reader = "closeread"
        [] op \in Enders -> TRUE
        [] OTHER -> FALSE
 
